@@ -159,6 +159,18 @@ def run(ctx: core.Ctx):
             elif want is None and getattr(rv, "name", None) != "UNKNOWN":
                 ctx.violation(f"decoding {t!r} for {py}.{fn} gives {rv!r}, expected the UNKNOWN member",
                               {"class": py, "function": fn, "text": t, "real": show_real(rv)}, {"kind": "not-unknown", "function": fn})
+        elif isinstance(conv, C.MultiConverter) and es and not any(ch.isdigit() for ch in t) and t.strip().lstrip("+-").lower() not in ("inf", "infinity", "nan"):
+            # enumerated-or-numeric function: a text without any digit cannot be a number, so the enumeration decides
+            want = [mem for E in es for mem in E.__members__.values() if mem.value == t]
+            if rk != "OK":
+                ctx.violation(f"decoding {t!r} for {py}.{fn} raises {rv}: enumerated decoding must be total",
+                              {"class": py, "function": fn, "text": t, "real": [rk, str(rv)]}, {"kind": "raises", "function": fn})
+            elif want and not any(rv is w for w in want):
+                ctx.violation(f"decoding {t!r} for {py}.{fn} gives {rv!r}, not the member with that wire text",
+                              {"class": py, "function": fn, "text": t, "real": show_real(rv)}, {"kind": "wrong-member", "function": fn})
+            elif not want and getattr(rv, "name", None) != "UNKNOWN":
+                ctx.violation(f"decoding {t!r} for {py}.{fn} gives {rv!r}, expected the UNKNOWN member",
+                              {"class": py, "function": fn, "text": t, "real": show_real(rv)}, {"kind": "not-unknown", "function": fn})
         elif isinstance(conv, C.StrConverter):
             if rk != "OK" or rv != t or type(rv) is not str:
                 ctx.violation(f"text function {py}.{fn} does not pass {t!r} through unchanged",
